@@ -101,6 +101,10 @@ def encode_op(op):
     if k == 'clear':
         _, r, kind = op
         return [4, r, 0 if kind == 'clear' else 1]
+    if k == 'freeze':
+        return [41, op[1]]
+    if k == 'nxcall':
+        return [42, op[1], int(op[3])]
     if k == 'poke':
         return [5, op[1], op[2]]
     if k == 'gattr':
@@ -206,6 +210,12 @@ def encode_op(op):
         for ln in lines:
             flat += [len(ln)] + [ord(c) for c in ln]
         return [76, dst, 0 if kind == 'snap' else 1, int(d), ord(m), *(_o(None if delim is None else ord(delim))), int(keys)] + flat
+    if k == 'stat':
+        _, r, which, u, v = op
+        return [90, r, STATS.index(which), u or 0, v or 0]
+    if k == 'iet':
+        _, r, sel, u = op
+        return [91, r, IETS.index(sel), u or 0]
     if k in ('rtsnap', 'rtint'):
         return [80 if k == 'rtsnap' else 81, op[1], op[2]]
     if k == 'rtnl':
@@ -221,6 +231,9 @@ def encode_op(op):
     raise ValueError(op)
 
 
+STATS = ['coverage', 'node_contribution', 'edge_contribution', 'node_pair_uniformity', 'uniformity', 'density',
+         'pair_density', 'node_density', 'snapshot_density', 'node_presence']
+IETS = ['global', 'node', 'out', 'in']
 OUTCOMES = {0: 'Done', 1: 'ValueError', 2: 'NetworkXError', 3: 'NetworkXNotImplemented', 4: 'KeyError', 5: 'Frozen', 6: 'TypeError'}
 
 
@@ -235,12 +248,24 @@ def _npair(directed, u, v):
 def decode_res(op, ints, directed_of):
     """model answer (list of ints) -> canonical python value. directed_of(r) gives the class of register r."""
     k = op[0]
-    if k in ('new', 'addnode', 'clear', 'poke', 'gattr'):
+    if k in ('new', 'poke', 'gattr', 'freeze'):
         return None
+    if k in ('addnode', 'clear'):
+        return OUTCOMES[ints[0]]
+    if k == 'nxcall':
+        return OUTCOMES[ints[0]]
     if k == 'streamchk':
         return (bool(ints[0]), bool(ints[1]))
     if k in ('add', 'bulk', 'slice', 'todir', 'toundir', 'rsnap', 'rint', 'nlg', 'rtext', 'rtsnap', 'rtint', 'rtnl'):
         return OUTCOMES[ints[0]]
+    if k == 'stat':
+        if op[2] == 'node_presence':
+            return sorted(ints)
+        if ints[0] == -1 and len(ints) == 1:
+            return 'KeyError'
+        return 'ZeroDivisionError' if ints[1] == 0 else Fraction(ints[0], ints[1])
+    if k == 'iet':
+        return sorted(_pairs(ints))
     if k == 'wsnap':
         return sorted(tuple(ints[i:i + 3]) for i in range(0, len(ints), 3))
     if k == 'wint':
@@ -456,8 +481,16 @@ class Impl:
                 return _exc_name(x)
         if k == 'addnode':
             _, r, n, a = op
-            self.g(r).add_node(I.to(n), **attr_to(a))
+            try:
+                self.g(r).add_node(I.to(n), **attr_to(a))
+                return 'Done'
+            except Exception as x:
+                return 'Frozen' if D.is_frozen(self.g(r)) else _exc_name(x)
+        if k == 'freeze':
+            D.freeze(self.g(op[1]))
             return None
+        if k == 'nxcall':
+            return nx_call(self, op)
         if k == 'bulk':
             _, r, kind, t, e, l = op
             G = self.g(r)
@@ -478,8 +511,11 @@ class Impl:
                 return _exc_name(x)
         if k == 'clear':
             _, r, kind = op
-            getattr(self.g(r), kind)()
-            return None
+            try:
+                getattr(self.g(r), kind)()
+                return 'Done'
+            except Exception as x:
+                return 'Frozen' if D.is_frozen(self.g(r)) else _exc_name(x)
         if k == 'annotate':
             from dynetx.algorithms import paths as al
             ps = [[tuple(h) for h in p] for p in op[2]]
@@ -499,7 +535,41 @@ class Impl:
         if k in ('wsnap', 'wint', 'nld', 'wsnaptext', 'winttext'):
             return self.step_io_write(op)
         if k in ('rtsnap', 'rtint', 'rtnl'):
-            return self.step_io_rt(op)  # the register was never produced (its constructor raised): nothing to observe
+            return self.step_io_rt(op)
+        if k == 'stat':
+            _, r, which, u, v = op
+            G = self.g(r)
+            try:
+                if which in ('coverage', 'uniformity', 'density'):
+                    res = getattr(G, which)()
+                elif which in ('node_contribution', 'node_density', 'node_presence'):
+                    res = getattr(G, which)(I.to(u))
+                elif which == 'snapshot_density':
+                    res = G.snapshot_density(u)
+                else:
+                    res = getattr(G, which)(I.to(u), I.to(v))
+            except ZeroDivisionError:
+                return 'ZeroDivisionError'
+            except Exception as x:
+                return _exc_name(x)
+            if which == 'node_presence':
+                return sorted(res)
+            return _to_fraction(res)
+        if k == 'iet':
+            _, r, sel, u = op
+            G = self.g(r)
+            try:
+                if sel == 'global':
+                    res = (D.inter_event_time_distribution(G) if F else G.inter_event_time_distribution())
+                elif sel == 'node':
+                    res = (D.inter_event_time_distribution(G, I.to(u)) if F else G.inter_event_time_distribution(I.to(u)))
+                elif sel == 'out':
+                    res = G.inter_out_event_time_distribution(I.to(u))
+                else:
+                    res = G.inter_in_event_time_distribution(I.to(u))
+            except Exception as x:
+                return _exc_name(x)
+            return sorted(res.items())  # the register was never produced (its constructor raised): nothing to observe
         G = self.g(op[1])
         d = G.is_directed()
         if k == 'poke':
@@ -868,6 +938,83 @@ def _unjson(I, x):
 
 
 _io_methods()
+
+
+def graph_fingerprint(G):
+    """every observable C19 speaks about: nodes+attributes, timelines, snapshot ids and counts, stream"""
+    try:
+        adj = G._succ if G.is_directed() else G._adj
+        tl = sorted((repr(u), repr(v), repr(d.get('t', 'NO-TIMELINE'))) for u, nb in adj.items() for v, d in nb.items())
+        return (sorted((repr(n), repr(a)) for n, a in G._node.items()), tl,
+                sorted(G.snapshots.items()), sorted(map(repr, G.stream_interactions())), repr(G.graph))
+    except Exception as x:
+        return 'FINGERPRINT-ERROR:' + repr(x)
+
+
+def synth_args(G, name, I):
+    """plausible arguments for an inherited networkx callable"""
+    ns = list(G._node)
+    a = ns[0] if ns else I.to(1)
+    b = ns[-1] if ns else I.to(2)
+    table = {
+        'add_edge': (a, b), 'add_edges_from': ([(a, b)],), 'add_weighted_edges_from': ([(a, b, 1.0)],),
+        'remove_edge': (a, b), 'remove_edges_from': ([(a, b)],), 'remove_node': (a,), 'remove_nodes_from': ([a],),
+        'update': ((), dict(edges=[(a, I.to(77))])), 'edges_iter': (), 'in_edges': (), 'out_edges': (), 'in_edges_iter': (), 'out_edges_iter': (),
+        'has_edge': (a, b), 'get_edge_data': (a, b), 'number_of_edges': (), 'nbunch_iter': ([a],), 'subgraph': ([a, b],),
+        'edge_subgraph': ([(a, b)],), 'adjacency': (), 'has_successor': (a, b), 'has_predecessor': (a, b),
+        'neighbors': (a,), 'successors': (a,), 'predecessors': (a,), 'has_node': (a,), 'degree': (), 'in_degree': (), 'out_degree': (),
+        'copy': (), 'to_directed': (), 'to_undirected': (), 'reverse': (), 'size': (), 'order': (), 'number_of_nodes': (), 'nodes': (),
+        'is_directed': (), 'is_multigraph': (), 'to_directed_class': (), 'to_undirected_class': (), '__len__': (),
+    }
+    v = table.get(name, ())
+    if len(v) == 2 and isinstance(v[1], dict):
+        return v[0], v[1]
+    return v, {}
+
+
+def nx_call(impl, op):
+    """call the inherited callable op[2] on register op[1]; report how it ended and whether anything observable changed"""
+    import networkx as nx
+    _, r, name, _blocked = op
+    G = impl.g(r)
+    before = graph_fingerprint(G)
+    args, kw = synth_args(G, name, impl.ids)
+    if name.startswith('dn.'):
+        fn = getattr(dn(), name[3:])
+        attr = (lambda: fn(G, 'x'))
+        args, kw = (), {}
+    else:
+        attr = getattr(G, name)
+    raised = None
+    try:
+        if callable(attr):
+            res = attr(*args, **kw)
+            if hasattr(res, '__next__'):
+                list(itertools.islice(res, 50))
+        else:
+            list(itertools.islice(iter(attr), 50)) if hasattr(attr, '__iter__') else None
+    except nx.NetworkXNotImplemented:
+        raised = 'NetworkXNotImplemented'
+    except Exception as x:
+        raised = 'other:' + type(x).__name__
+    after = graph_fingerprint(G)
+    if before != after:
+        return 'CHANGED:%s:%s' % (name, raised)
+    if _blocked == 2:
+        # frozen graph: any exception that leaves the graph untouched counts as 'frozen'
+        return 'Frozen' if raised else 'Done'
+    if raised == 'NetworkXNotImplemented' and _blocked:
+        return 'NetworkXNotImplemented'
+    # not in the must-block list: a query, view or factory; it may itself end in NetworkXNotImplemented (copy(), reverse()
+    # go through add_edges_from) -- what matters is that nothing observable changed
+    return 'Done'
+
+
+def _to_fraction(x):
+    """the implementation returns int / int: recover the exact ratio (denominators are tiny)"""
+    if isinstance(x, int):
+        return Fraction(x)
+    return Fraction(x).limit_denominator(10 ** 7)
 
 
 def _canon_paths(res, I):
